@@ -565,6 +565,12 @@ impl Duplex {
 
 impl Read for Duplex {
     fn read(&mut self, buf: &mut [u8]) -> io::Result<usize> {
+        crate::mon::suspended(|| self.read_inner(buf))
+    }
+}
+
+impl Duplex {
+    fn read_inner(&mut self, buf: &mut [u8]) -> io::Result<usize> {
         let mut s = self.0.lock().unwrap();
         s.reads += 1;
         if s.out.is_empty() {
@@ -582,6 +588,15 @@ impl Read for Duplex {
 
 impl Write for Duplex {
     fn write(&mut self, buf: &[u8]) -> io::Result<usize> {
+        crate::mon::suspended(|| self.write_inner(buf))
+    }
+    fn flush(&mut self) -> io::Result<()> {
+        Ok(())
+    }
+}
+
+impl Duplex {
+    fn write_inner(&mut self, buf: &[u8]) -> io::Result<usize> {
         let mut s = self.0.lock().unwrap();
         s.writes += 1;
         if let Some(limit) = s.fail_writes_after {
@@ -594,8 +609,5 @@ impl Write for Duplex {
         s.write_log.push((clk, buf.len()));
         s.client_wrote(buf);
         Ok(buf.len())
-    }
-    fn flush(&mut self) -> io::Result<()> {
-        Ok(())
     }
 }
